@@ -266,7 +266,7 @@ def generate(rng, tier, index):
         sc["score"] = sc["uniqueness"] = sc["pretest"] = sc["clue_penalty"] = None
         return sc
     sc["pattern"] = _gen_pattern(rng)
-    shape = rng.choice(["vars", "array2d", "frame", "nested", "plain"])
+    shape = rng.choice(["vars", "array2d", "frame", "nested", "plain", "list_first", "deep", "list_first"])
     sc["solver"] = {
         "type": "fake",
         "subseed": rng.randrange(10**9),
@@ -915,6 +915,18 @@ def _make_answer(shape, decided, values, cspuz, E, A):
         for i, e in enumerate(edges):
             e.sol = (values[i % k] % 2 == 0) if decided[i % k] else None
         return (fr,)
+    if shape in ("list_first", "deep"):
+        vs = []
+        for i in range(k):
+            v = E.BoolVar(i) if i % 3 else E.IntVar(i, 0, 9)
+            if decided[i]:
+                v.sol = (values[i] % 2 == 0) if i % 3 else values[i] % 3  # integer 0 is a decided value
+            vs.append(v)
+        third = max(1, k // 3)
+        if shape == "list_first":
+            # a list FIRST, then sibling answers: every sibling must still be inspected
+            return ([vs[0]] + [A.BoolArray1D([v for v in vs[1:third + 1] if isinstance(v, E.BoolVar)])], *vs[third + 1 :])
+        return ([[vs[0], [v for v in vs[1:third + 1]]], vs[third + 1] if k > third + 1 else vs[0]], [], *vs[third + 2 :])
     if shape == "nested":
         vs = []
         for i in range(k):
@@ -930,6 +942,26 @@ def _answer_all_decided(shape, decided):
     if shape == "frame":
         return all(decided[i % len(decided)] for i in range(4))
     return all(decided)
+
+
+def ref_all_decided(answer):
+    """Reference reading of 'the uniqueness test accepts': every variable reachable through the
+    documented answer shapes (variables, arrays, grid frames, nested lists) has a decided value."""
+    for a in answer:
+        if isinstance(a, list):
+            if not ref_all_decided(a):
+                return False
+        elif hasattr(a, "is_variable") and a.is_variable():
+            if a.sol is None:
+                return False
+        elif isinstance(a, _Plain):
+            if a.sol is None:
+                return False
+        else:
+            for cell in a:  # Array1D / Array2D / BoolGridFrame
+                if cell.sol is None:
+                    return False
+    return True
 
 
 def _answer_score(shape, decided):
@@ -1041,7 +1073,7 @@ def exec_gen(sc, variant, res, check=True, retain=True):
         ans = _make_answer(solver_cfg["shape"], decided, values, cspuz, E, A)
         rec["answer"] = ans
         rec["decided"] = decided
-        rec["unique_expected"] = _answer_all_decided(solver_cfg["shape"], decided)
+        rec["unique_expected"] = ref_all_decided(ans)
         purity(f"solver call {rec['n']}")
         return (True,) + ans
 
